@@ -128,7 +128,9 @@ def _validate_input_lengths_and_indexes(
         if not left.equals(right):
             raise ValueError("Found different indices in the array_inputs")
 
-    return indexes[0]
+    # a shallow copy (the labels are shared, the object is not): results are built on
+    # this index and the caller may rename the index of a result it receives
+    return indexes[0].copy()
 
 
 def _ensure_multi_index(index: pd.Index) -> pd.MultiIndex:
@@ -423,8 +425,9 @@ class GroupBy:
         """
         Count of observations for each group as a Series indexed by the unique labels
         """
-        # a new Series per access: the caller may edit what it gets in place
-        return pd.Series(self.ikey_count, self.result_index)
+        # a new Series per access, on a shallow copy of the labels: the caller may edit
+        # (or rename the index of) what it gets in place
+        return pd.Series(self.ikey_count, self.result_index.copy())
 
     @staticmethod
     @nb.njit(nogil=True, cache=True)
